@@ -106,6 +106,43 @@ pub fn enumerated() -> Vec<String> {
             }
         }
     }
+    // (e'') text that parses and is playable, but is no chess position: extreme material
+    {
+        let mut rng = Rng64::new(0x00e7_7e3e);
+        let mut made = 0;
+        let mut tries = 0;
+        while made < 16 && tries < 20_000 {
+            tries += 1;
+            let strong_white = made % 2 == 0;
+            let heavy = if made % 4 < 2 { refchess::QUEEN } else { refchess::ROOK };
+            let n = 10 + rng.below(14) as usize;
+            let mut board = [refchess::EMPTY; 64];
+            let mut put = |pc: u8, rng: &mut Rng64, board: &mut [u8; 64]| loop {
+                let sq = rng.below(64) as usize;
+                if board[sq] == refchess::EMPTY {
+                    board[sq] = pc;
+                    break;
+                }
+            };
+            put(refchess::KING, &mut rng, &mut board);
+            put(refchess::KING | refchess::BLACK_BIT, &mut rng, &mut board);
+            for _ in 0..n {
+                put(heavy | if strong_white { 0 } else { refchess::BLACK_BIT }, &mut rng, &mut board);
+            }
+            for side in 0..2u8 {
+                let p = refchess::Pos { board, side, castling: 0, ep: None, halfmove: 0, fullmove: 1 };
+                if p.is_sane() && !p.legal_moves().is_empty() && !p.in_check() {
+                    out.push(format!("position fen {}", p.fen()));
+                    made += 1;
+                    break;
+                }
+            }
+        }
+        out.push("position fen 1qqqqqqk/q1qqqqq1/qq1qqqqq/8/8/8/7P/7K w - - 0 1".to_string());
+        out.push("position fen 7k/7p/8/8/8/QQ1QQQQQ/Q1QQQQQ1/1QQQQQQK b - - 0 1".to_string());
+        out.push("position fen 4k3/pppppppp/pppppppp/pppppppp/8/8/8/4K3 w - - 0 1".to_string());
+        out.push("position fen 4k3/8/8/8/PPPPPPPP/PPPPPPPP/PPPPPPPP/4K3 b - - 0 1".to_string());
+    }
     // (d) numeric abuse
     for n in ["-1", "0", "+5", "2147483647", "2147483648", "4294967296", "18446744073709551615", "18446744073709551616", "1e9", "0x10", "１", "", " ", "99999999999999999999999999999999999999", "-0", "3.5"] {
         out.push(format!("go depth {}", n));
